@@ -298,15 +298,23 @@ func (c *Ctx) feeOpsOfSwap() map[*ssa.Function]bool {
 	if len(paths) != 1 {
 		return out
 	}
-	o := c.P.OriginsOf(swap)
-	for _, ci := range Calls(swap) {
-		if v, ok := ci.(ssa.Value); ok {
-			e := o.Of(v)
-			if c.isFeeCall(e, recv, paths[0]) {
-				out[ci.Common().StaticCallee()] = true
+	// in the operation itself or in a helper that is new on this tree (the body moved behind a thin wrapper),
+	// read in its calling context
+	saved := c.scope
+	for _, o := range c.OpContexts(swap) {
+		if o.Fn.Parent() != nil {
+			continue
+		}
+		for _, ci := range Calls(o.Fn) {
+			if v, ok := ci.(ssa.Value); ok {
+				e := o.Of(v)
+				if c.isFeeCall(e, recv, paths[0]) {
+					out[ci.Common().StaticCallee()] = true
+				}
 			}
 		}
 	}
+	c.scope = saved
 	return out
 }
 
